@@ -496,8 +496,8 @@ Lemma filter_RI_J k n : RI_J n ->
 Proof.
   intros H Hk tn r c Hr Hc Hkd. rewrite rows_of_filter_rows in Hr. apply filter_In in Hr. destruct Hr as [Hr Hkr].
   pose proof (H tn r c Hr Hc Hkd) as Hin. rewrite labels_of_rows_of in *. apply in_map_iff in Hin.
-  destruct Hin as [r0 [E Hr0]]. rewrite rows_of_filter_rows. apply in_map_iff. exists r0. split; auto.
-  apply filter_In. split; auto. eapply Hk; eauto.
+  destruct Hin as [r0 [E Hr0]]. rewrite rows_of_filter_rows. apply in_map_iff. exists r0. split; [exact E|].
+  apply filter_In. split; [exact Hr0|]. exact (Hk tn r c r0 Hr Hkr Hc Hkd Hr0 E).
 Qed.
 
 Lemma hit_plain sel js tn r n : plain n -> special tn = true -> In r (rows_of tn n) -> hit sel js tn r = false.
@@ -619,8 +619,9 @@ Lemma relabel_sel_for_RI_J s cs e rho n : selP_sane s -> elem_guard e -> covers 
   RI_J n -> RI_J (relabel e rho (sel_for s cs e) n).
 Proof.
   intros Hs [-> | Hf] Hc H.
-  - apply relabel_RI_J_same; auto. intros tn r c Hr Hcc Hk. simpl. unfold on_cell. now apply (Hc tn r c).
-  - apply relabel_RI_J_other; auto. intros tn r c Hr Hcc Hsel. unfold sel_for in Hsel.
+  - apply relabel_RI_J_same; [reflexivity | | exact H].
+    intros tn r c Hr Hcc Hk. simpl. unfold on_cell. now apply (Hc tn r c).
+  - apply relabel_RI_J_other; [exact Hf | | exact H]. intros tn r c Hr Hcc Hsel. unfold sel_for in Hsel.
     destruct (String.eqb e "junction") eqn:E.
     + apply String.eqb_eq in E. subst. discriminate.
     + destruct (String.eqb e "pipe"); [|discriminate]. unfold on_cell in Hsel. eapply Hs; eauto.
